@@ -183,7 +183,9 @@ func Parse(r io.ReaderAt, size int64) (*Vol, error) {
 		if err != nil {
 			return nil, err
 		}
-		if d[0] != want || string(d[1:6]) != "CD001" || (want != 255 && d[6] != 1) {
+		// ECMA-119 8.1.3 / 8.3.3 / 8.4.3: every descriptor, the set terminator included, carries version 1
+		// (readers such as libarchive refuse a volume whose terminator says otherwise)
+		if d[0] != want || string(d[1:6]) != "CD001" || d[6] != 1 {
 			v.prob("descriptors-in-place", "sector %d: type %d id %q version %d (want type %d CD001)", 16+i, d[0], d[1:6], d[6], want)
 			if want != 255 {
 				return v, fmt.Errorf("descriptor at sector %d unusable", 16+i)
